@@ -205,6 +205,9 @@ Section WithOracles.
   (* deserialize_single_field followed by the constructor's __set__ *)
   Definition reg_leaf (l : leaf) (v : pyval) : res pyval :=
     match l with
+    | LPrim FNone =>
+        (* deserialize_single_field(NoneField(), v) calls NoneType( *v ) / NoneType( **v ) for a list / dict *)
+        if empty_container v then Ok PNone else vset re_match [] FNone v
     | LPrim f => vset re_match [] f v
     | LEnum cls ms byv =>
         if negb (py_hashable v) then Raise TypeError
@@ -409,6 +412,14 @@ Section WithOracles.
         Ok (match r with Some x => (f_name fd, x) :: rest | None => rest end)
     end.
 
+  (* _get_enum_mapping returns {**without_optionals, **optionals}: the plain Enum[E] fields come first, then
+     the Optional / AnyOf ones, each group in declaration order (a stable partition).  Only entries of the
+     second group can raise, so the exception is the one the declaration order gives. *)
+  Definition is_plain_enum (tf : tfield) : bool :=
+    match tf with TLeaf (LEnum _ _ _) => true | _ => false end.
+  Definition enum_order (fs : list tfd) : list tfd :=
+    filter (fun fd => is_plain_enum (f_ty fd)) fs ++ filter (fun fd => negb (is_plain_enum (f_ty fd))) fs.
+
   Fixpoint apply_enums (ts : list (pystr * (pystr * list (pystr * pyval)))) (inp acc : list (pystr * pyval))
     : res (list (pystr * pyval)) :=
     match ts with
@@ -518,7 +529,7 @@ Section WithOracles.
                     (* get_flat_resolved_mapper calls mapper.get: a list of mappers has no such method *)
                     _ <- match t_mapper c with MapList => Raise AttributeError | _ => Ok tt end ;;
                     let inp := rename_doc c doc in
-                    ts <- enum_targets (t_fields c) ;;
+                    ts <- enum_targets (enum_order (t_fields c)) ;;
                     upd <- apply_enums ts inp inp ;;
                     m <- match lv with
                          | Nested => remap_input (trusted_cls n Nested) c upd
